@@ -40,7 +40,7 @@ theorem rejected_source_restores (fuel : Nat) (mode : Mode) (toks : List Tok) (s
     (h : s.buildSource fuel mode toks = .rejected e s') :
     s' = { s with m := { s.m with meter := s'.m.meter, out := s'.m.out, aboutToStop := s'.m.aboutToStop },
                   lastTok := s'.lastTok } := by
-  have hb := sok_build1 (ext_open idle mode hmode) fuel toks
+  have hb := sok_build1 (ext_open idle mode hmode) hmode fuel toks
   unfold Sess.buildSource at h
   simp only [] at h
   generalize (s.contextOpen mode).build1 fuel toks = r at h hb
@@ -66,7 +66,7 @@ theorem rejected_source_never_touched_the_old_state (fuel : Nat) (mode : Mode) (
     s2.m.code.take s.m.code.length = s.m.code ∧ s2.m.heap.take s.m.heap.length = s.m.heap ∧
     hidOf s2.m.ds s.m.ds.length = s.m.ds ∧ hidOf s2.m.rs s.m.rs.length = s.m.rs ∧
     hidOf s2.flows s.flows.length = s.flows ∧ hidOf s2.nested s.nested.length = s.nested := by
-  have hb := sok_build1 (ext_open idle mode hmode) fuel toks
+  have hb := sok_build1 (ext_open idle mode hmode) hmode fuel toks
   rw [h] at hb
   exact ⟨hb.code, hb.heap, hb.ds, hb.rs, hb.flows, hb.nested⟩
 
